@@ -187,6 +187,11 @@ func (s *Session) Load(ctx context.Context, key interface{}, store Loader) ([]by
 		return nil, err
 	}
 
+	if drr == nil {
+		// a store that reports a missing record as (nil, nil) must not crash the caller
+		return nil, errors.New("data row record not found")
+	}
+
 	return s.Decrypt(ctx, *drr)
 }
 
